@@ -171,12 +171,16 @@ FailIt(h, st, ev) ==
          \cup Sel(IsNaN(st.resol) \/ Le(ev.resol, st.resol), "C18.mono")
          \cup Sel(ev.penok, "C18.penalty")
          \cup Sel(\A k \in DOMAIN ev.merit : Le(ev.merit[ev.best], ev.mhi[k]), "C18.centre")
+         \cup Sel(\A k \in DOMAIN ev.merit :
+                    ev.merit[k] = ev.merit[ev.best] => Le(ev.mviol[ev.best], ev.mvhi[k]), "C18.tie")
       ELSE {})
 
 FailTR(h, st, ev) ==
   CASE ev.e = "Init" ->
             Sel(Le(ev.rhoend, ev.resol) /\ Le(ev.resol, ev.radius), "C18.order")
        \cup Sel(\A k \in DOMAIN ev.merit : Le(ev.merit[ev.best], ev.mhi[k]), "C18.centre")
+       \cup Sel(\A k \in DOMAIN ev.merit :
+                  ev.merit[k] = ev.merit[ev.best] => Le(ev.mviol[ev.best], ev.mvhi[k]), "C18.tie")
     [] ev.e = "Enh" ->
             Sel(Le(ev.ra, ev.rb), "C18.mono")
        \cup Sel(Le(ev.rhoend, ev.ra) /\ Le(ev.ra, ev.rada), "C18.order")
